@@ -122,13 +122,22 @@ class Problem:
         self.use_old_rk = bool(rng.random() < 0.6)
         self.increase_npt = bool(rng.random() < 0.3)
         self.noise_seed = int(rng.integers(0, 2 ** 31))
+        # restarts that really happen, several times (loose rhoend), and runs that stop shortly after one
+        self.move_xk = True
+        if self.restart != "none" and rng.random() < 0.5:
+            self.rhoend = float(10 ** rng.uniform(-2.5, -1.3))
+            self.maxfun = int(rng.integers(15, 75)) if rng.random() < 0.6 else int(rng.integers(150, 400))
+            if self.restart == "soft":
+                self.increase_npt = bool(rng.random() < 0.7)
+                self.move_xk = bool(rng.random() < 0.5)
         # residuals in small / large units (a Jacobian whose singular values are far from 1)
         self.runit = float(10 ** rng.uniform(-9, 4)) if (rng.random() < 0.25 and self.noise == 0.0) else 1.0
 
     def describe(self):
         return {"n": self.n, "m": self.m, "kind": self.kind, "bounds": self.bounds is not None, "scaling": self.scaling,
                 "npt": self.npt, "maxfun": self.maxfun, "rhoend": self.rhoend, "restart": self.restart, "nsamples": self.nsamp,
-                "noise": self.noise, "use_old_rk": self.use_old_rk, "increase_npt": self.increase_npt, "residual_unit": self.runit}
+                "noise": self.noise, "use_old_rk": self.use_old_rk, "increase_npt": self.increase_npt, "residual_unit": self.runit,
+                "move_xk": self.move_xk}
 
     def resid_exact(self, x):
         r = self.A.dot(x) - self.b
@@ -159,6 +168,12 @@ def run_problem(dfols, prob, capture=None):
         if prob.restart == "hard":
             up["restarts.hard.use_old_rk"] = prob.use_old_rk
         up["restarts.increase_npt"] = prob.increase_npt
+        if prob.increase_npt:
+            # (never beyond (n+1)(n+2)/2, the documented default cap: larger sets crash the coordinate initialisation of a
+            #  hard-restarted run - recorded under C07)
+            up["restarts.max_npt"] = max(prob.npt, min(prob.npt + 2, (prob.n + 1) * (prob.n + 2) // 2))
+        if prob.restart == "soft" and not prob.move_xk:
+            up["restarts.soft.move_xk"] = False
     elif prob.nsamp > 1:
         up["restarts.use_restarts"] = False
     if prob.runit != 1.0:
